@@ -17,12 +17,13 @@ import (
 var ifaceType = reflect.TypeOf((*interface{})(nil)).Elem()
 
 type randCtx struct {
-	r      *tr.Rng
-	leaves []Gen
-	keys   []Gen
-	fixed  []Gen
-	pool   map[reflect.Type][]reflect.Value // pointers, slices and maps built so far, by type
-	byType map[reflect.Type]Gen
+	r       *tr.Rng
+	leaves  []Gen
+	keys    []Gen
+	fixed   []Gen
+	pool    map[reflect.Type][]reflect.Value // pointers, slices and maps built so far, by type
+	ptrOnly bool                             // share pointers only (slices and maps held by value have no identity on the wire)
+	byType  map[reflect.Type]Gen
 }
 
 var randLeaves, randFixed []Gen
@@ -92,6 +93,9 @@ func (c *randCtx) typ(depth int) (reflect.Type, string) {
 }
 
 func (c *randCtx) share(t reflect.Type) (reflect.Value, bool) {
+	if c.ptrOnly && t.Kind() != reflect.Ptr {
+		return reflect.Value{}, false
+	}
 	if p := c.pool[t]; len(p) > 0 && c.r.Intn(4) == 0 {
 		return p[c.r.Intn(len(p))], true
 	}
@@ -184,8 +188,12 @@ func (c *randCtx) value(t reflect.Type, depth int) reflect.Value {
 }
 
 // Random returns the case of the given seed: a type shape of at most the given depth with one value.
-func Random(seed int64, depth int) Gen {
+func Random(seed int64, depth int) Gen { return RandomOpt(seed, depth, false) }
+
+// RandomOpt: with ptrOnly, sub-objects are shared through pointers only.
+func RandomOpt(seed int64, depth int, ptrOnly bool) Gen {
 	c := newRandCtx(tr.NewRng(seed))
+	c.ptrOnly = ptrOnly
 	t, name := c.typ(depth)
 	g := Gen{Name: "random:" + name, T: t, Depth: depth, Leaf: "random"}
 	g.Vals = []Val{{c.value(t, depth), fmt.Sprintf("seed:%d", seed)}}
